@@ -12,6 +12,11 @@ def _conds(tier):
     for op in OPS:
         conds.append(Cond(f"one-step/{op}/types={nt}/listeners={nl}/subs<={maxs}", "c08", "h_step",
                           {"VF_OP": op, "VF_MAXS": maxs, "VF_NL": nl, "VF_NT": nt}, to))
+    if q:
+        # three listeners on ONE type: removals at every position of a longer list
+        for op in ("remove", "rm_listener", "rm_both", "add"):
+            conds.append(Cond(f"one-step/{op}/types=1/listeners=3/subs<=3", "c08", "h_step",
+                              {"VF_OP": op, "VF_MAXS": 3, "VF_NL": 3, "VF_NT": 1}, to))
     for act in ACTS:
         conds.append(Cond(f"reentrant/{act}/types={nt}/listeners={nl}/subs<={maxs}", "c08", "h_reenter",
                           {"VF_ACT": act, "VF_MAXS": maxs, "VF_NL": nl, "VF_NT": nt}, to))
